@@ -88,6 +88,9 @@ def gen_cases(rng, h, info, quick):
                 e3 = [-rng.choice([0, 0, 1, 2]) for i in range(3)] if cover else ext
                 lines.append('o_perm\t%s %d %d %d %d %d %d %d %d %d %d %d %d %d %d %d' % (
                     T, ri['row'], *n, perm, mode, swap, sm, rng.randint(0, 99), *s3, *e3))
+            # a mask (Ccp4<int8_t>) read from 16-bit data modes, in either byte order (oracle only)
+            lines.append('o_perm\tb %d %d %d %d %d %d %d %d %d %d %d %d %d %d %d' % (
+                ri['row'], *n, perm, rng.choice([1, 6]), rng.randrange(2), rng.randrange(3), rng.randint(0, 99), 0, 0, 0, 0, 0, 0))
         n = F.compatible_size(rng, ri, small=quick)
         for T, mode in (('f', 0), ('f', 1), ('f', 2), ('f', 6), ('b', 0)):
             if quick and rng.random() < 0.5:
